@@ -230,6 +230,122 @@ def subst_mv(p, theta):
     return p
 
 
+def is_plain(p):
+    """expanded pattern without pending substitution / constrained metavariable"""
+    k = p[0]
+    if k == 'mv':
+        return not any(p[2:7])
+    if k in ('esub', 'ssub'):
+        return False
+    if k in ('imp', 'app'):
+        return is_plain(p[1]) and is_plain(p[2])
+    if k in ('ex', 'mu'):
+        return is_plain(p[2])
+    return True
+
+
+def mvars(p, acc=None):
+    """metavariable ids of an expanded pattern, first occurrence order"""
+    acc = [] if acc is None else acc
+    if p[0] == 'mv':
+        if p[1] not in acc:
+            acc.append(p[1])
+    else:
+        for x in p[1:]:
+            if isinstance(x, tuple) and x and isinstance(x[0], str):
+                mvars(x, acc)
+    return acc
+
+
+def match_plain(p, i, th):
+    """textbook first-order matching of a plain expanded pattern against an instance; extends th or None"""
+    k = p[0]
+    if k == 'mv':
+        if p[1] in th:
+            return th if th[p[1]] == i else None
+        th[p[1]] = i
+        return th
+    if k != i[0]:
+        return None
+    if k in ('imp', 'app'):
+        return th if match_plain(p[1], i[1], th) is not None and match_plain(p[2], i[2], th) is not None else None
+    if k in ('ex', 'mu'):
+        return match_plain(p[2], i[2], th) if p[1] == i[1] else None
+    return th if p == i else None
+
+
+def un_imp(p):
+    return (p[1], p[2]) if p is not None and p[0] == 'imp' else None
+
+
+def un_equiv(p):
+    """(a, b) if the expanded pattern is equiv(a, b)"""
+    try:
+        if p[0] == 'imp' and p[2] == BOT and p[1][0] == 'imp' and p[1][2][0] == 'imp' and p[1][2][2] == BOT:
+            x, y = p[1][1], p[1][2][1]
+            if x[0] == 'imp' and y[0] == 'imp' and x[1] == y[2] and x[2] == y[1]:
+                return x[1], x[2]
+    except (IndexError, TypeError):
+        pass
+    return None
+
+
+def mk_equiv(a, b):
+    return expand(('equiv', a, b))
+
+
+def oracle_special(name, args):
+    """documented conclusion of the rules that instantiate a premise: `dynamic_inst` (= sequential
+    instantiation) and the six *_match* rules.  args: ('pat', p) | ('thunk', conc|None) | ('subst', [(k, p)]);
+    everything expanded.  None = no expectation (premise not plain / not of the documented shape / no match)."""
+    kinds = [a[0] for a in args]
+    vals = [a[1] for a in args]
+    if any(k == 'thunk' and v_ is None for k, v_ in args):
+        return None
+    if name == 'dynamic_inst':
+        conc, delta = vals
+        if not delta:
+            return conc
+        if not is_plain(conc) or len({k for k, _ in delta}) != len(delta):
+            return None
+        return subst_mv(conc, dict(delta))
+    if name in ('imp_trans_match1', 'imp_trans_match2'):
+        h1, h2 = un_imp(vals[0]), un_imp(vals[1])
+        if not h1 or not h2:
+            return None
+        (a, b), (c, d) = h1, h2
+        if name == 'imp_trans_match1':
+            th = match_plain(b, c, {}) if is_plain(vals[0]) else None
+            return None if th is None else ('imp', subst_mv(a, th), d)
+        th = match_plain(c, b, {}) if is_plain(vals[1]) else None
+        return None if th is None else ('imp', a, subst_mv(d, th))
+    if name in ('equiv_match_l', 'equiv_match_r'):
+        h = un_equiv(vals[0])
+        if not h or not is_plain(vals[0]) or kinds[1] != 'pat':
+            return None
+        a, b = h
+        if name == 'equiv_match_l':
+            th = match_plain(a, vals[1], {})
+            return None if th is None else mk_equiv(vals[1], subst_mv(b, th))
+        th = match_plain(b, vals[1], {})
+        return None if th is None else mk_equiv(subst_mv(a, th), vals[1])
+    if name in ('equiv_trans_match1', 'equiv_trans_match2'):
+        h1, h2 = un_equiv(vals[0]), un_equiv(vals[1])
+        if not h1 or not h2:
+            return None
+        (a, b), (c, d) = h1, h2
+        if name == 'equiv_trans_match1':
+            th = match_plain(b, c, {}) if is_plain(vals[0]) else None
+            return None if th is None else mk_equiv(subst_mv(a, th), d)
+        th = match_plain(c, b, {}) if is_plain(vals[1]) else None
+        return None if th is None else mk_equiv(a, subst_mv(d, th))
+    return None
+
+
+SPECIAL = {'dynamic_inst', 'imp_trans_match1', 'imp_trans_match2', 'equiv_match_l', 'equiv_match_r',
+           'equiv_trans_match1', 'equiv_trans_match2'}
+
+
 # ------------------------------------------------------------------------------------------------
 # library index, schemas
 # ------------------------------------------------------------------------------------------------
@@ -290,6 +406,8 @@ class Gen:
         m = lib.by_name[name]
         if name in MATCH_METHODS:
             return self.match_call(name, level)
+        if name == 'dynamic_inst':
+            return self.tree_case(self.inst_tree(level, None, plain_only=(level > 0 or rng.random() < 0.5)))
         sch = lib.schemas.get(name)
         params = m['params']
         pats = [p for p in params if p['type'] == 'pat']
@@ -316,8 +434,13 @@ class Gen:
                 continue
             if level < 2 and rng.random() < (0.4 if level == 0 else 0.25):
                 for _ in range(4):
-                    g = rng.choice(lib.with_schema)
-                    pj, mj, exp, sj = self.call(g, level + 1, maxdepth)
+                    if rng.random() < 0.3:
+                        tj = self.inst_tree(level + 1) if rng.random() < 0.6 else self.lemma_tree()
+                        pj, mj, exp, sj = self.tree_case(tj)
+                        g = tj['call']
+                    else:
+                        g = rng.choice(lib.with_schema)
+                        pj, mj, exp, sj = self.call(g, level + 1, maxdepth)
                     if exp is None:
                         continue
                     e2 = dict(env)
@@ -375,59 +498,104 @@ class Gen:
         return ({'call': name, 'args': py_args}, f'(C {m["idx"]} ' + ' '.join(ml_args) + ')' if ml_args else f'(C {m["idx"]})',
                 exp[0] if exp else None, subs)
 
-    # -- the six *_match* rules: premise 1/2 is instantiated so that the middle formulas agree --------
-    def match_call(self, name, level):
-        rng = self.rng
-        m = self.lib.by_name[name]
-        nv = 3
-        b = gen_plain(rng, 2, nv)                                # pattern side (metavariables get bound)
-        theta = {i: expand(gen_pat(rng, 1, self.hist)) for i in range(nv)}
-        if rng.random() < 0.15:
-            theta = {}
-        c = subst_mv(expand(b), theta)                           # instance side
-        a, d = gen_plain(rng, 1, nv), gen_pat(rng, 1, self.hist)
-        eb = expand(b)
-        ea = expand(a)
-        # the map match_single(b, c) returns binds exactly the metavariables of b
-        used = set()
+    # -- call trees for the rules that instantiate a premise -------------------------------------------
+    def tree_case(self, py):
+        lib = self.lib
+        return py, ml_of(py, lib), oracle_of(py, lib), subcases(py, lib)
 
-        def mvs(p):
-            if p[0] == 'mv':
-                used.add(p[1])
-            for x in p[1:]:
-                if isinstance(x, tuple) and x and isinstance(x[0], str):
-                    mvs(x)
-        mvs(eb)
-        th = {i: theta[i] for i in used if i in theta}
-        ia = subst_mv(ea, th)
-        self.note('premise:match-family')
-        if name == 'imp_trans_match1':       # h1 : a -> b (instantiated)   h2 : c -> d
-            h1, h2 = ('imp', a, b), ('imp', c, d)
-            exp = ('imp', ia, expand(d))
-        elif name == 'imp_trans_match2':     # h1 : d -> c   h2 : b -> a (instantiated)
-            h1, h2 = ('imp', d, c), ('imp', b, a)
-            exp = ('imp', expand(d), ia)
-        elif name == 'equiv_match_l':        # h : b <-> a, p = c
-            h1, h2 = ('equiv', b, a), None
-            exp = expand(('equiv', c, ia))
-        elif name == 'equiv_match_r':        # h : a <-> b, p = c
-            h1, h2 = ('equiv', a, b), None
-            exp = expand(('equiv', ia, c))
-        elif name == 'equiv_trans_match1':   # h1 : a <-> b (instantiated), h2 : c <-> d
-            h1, h2 = ('equiv', a, b), ('equiv', c, d)
-            exp = expand(('equiv', ia, d))
-        else:                                # equiv_trans_match2: h1 : d <-> c, h2 : b <-> a (instantiated)
-            h1, h2 = ('equiv', d, c), ('equiv', b, a)
-            exp = expand(('equiv', d, ia))
-        py_args = [{'ax': h1}]
-        ml_args = [f'(A {hexp(expand(h1))})']
-        if h2 is not None:
-            py_args.append({'ax': h2})
-            ml_args.append(f'(A {hexp(expand(h2))})')
+    def schematic(self):
+        """plain pattern, often a bare metavariable at a 'wrong' position (phi1 where phi0 is the default)"""
+        rng = self.rng
+        if rng.random() < 0.55:
+            return mv(rng.randrange(0, 3))
+        return gen_plain(rng, 1, 3)
+
+    def lemma_tree(self, want=None):
+        """axiom-style library rule at schematic arguments; biased to the rules that are themselves a
+        dynamic_inst of an axiom (prop1_inst, or_assoc_r, ...)"""
+        lib, rng = self.lib, self.rng
+        cands = [m for m in lib.idx['methods'] if m['name'] in lib.schemas and m['spec'] != 'primitive'
+                 and not any(p['type'] != 'pat' for p in m['params'])]
+        if want == 'equiv':
+            cands = [m for m in cands if lib.schemas[m['name']]['conclusions'][0][0] == 'equiv']
         else:
-            py_args.append({'p': c})
-            ml_args.append('P' + hexp(expand(c)))
-        return {'call': name, 'args': py_args}, f'(C {m["idx"]} ' + ' '.join(ml_args) + ')', exp, []
+            direct = [m for m in cands if not m['calls'] and m['params']]
+            if direct and rng.random() < 0.6:
+                cands = direct
+        m = rng.choice(cands)
+        args = [{'p': self.schematic()} for _ in m['params']]
+        if args and all(p['default'] is not None for p in m['params']) and rng.random() < 0.15:
+            args = args[:rng.randrange(0, len(args))]
+        self.note('premise:schematic-lemma')
+        return {'call': m['name'], 'args': args}
+
+    def delta(self, plain_only):
+        rng = self.rng
+        if rng.random() < 0.07:
+            return []
+        keys = rng.sample(range(4), rng.randrange(1, 4))
+        out = []
+        for k in keys:
+            if plain_only or rng.random() < 0.7:
+                out.append([k, self.schematic()])
+            else:
+                out.append([k, gen_pat(rng, 1, self.hist)])
+        return out
+
+    def inst_tree(self, level, want=None, plain_only=True):
+        """dynamic_inst(base, delta); base = schematic lemma | assumption | another dynamic_inst (ids overlap:
+        all substitutions draw keys from 0..3 and plugs mention phi0..phi2)"""
+        rng = self.rng
+        r = rng.random()
+        if level < 2 and r < 0.45:
+            base = self.inst_tree(level + 1, want, True)
+            self.note('premise:dynamic_inst-of-dynamic_inst')
+        elif r < 0.85 or want == 'equiv':
+            base = self.lemma_tree(want)
+        else:
+            base = {'ax': ('imp', gen_plain(rng, 1, 3), gen_plain(rng, 1, 3))}
+        return {'call': 'dynamic_inst', 'args': [base, {'d': self.delta(plain_only)}]}
+
+    def match_call(self, name, level):
+        """*_match* rule: the premise that gets instantiated is an assumption, a schematic lemma or a
+        dynamic_inst result (so that the rule re-instantiates an instantiated lemma with overlapping ids)"""
+        rng, lib = self.rng, self.lib
+        want = 'equiv' if name.startswith('equiv') else None
+        T = None
+        r = rng.random()
+        if r < 0.35:
+            T = self.inst_tree(1, want, True)
+        elif r < 0.65:
+            T = self.lemma_tree(want)
+        E = oracle_of(T, lib) if T is not None else None
+        parts = (un_equiv(E) if want else un_imp(E)) if E is not None and is_plain(E) else None
+        if parts is None:
+            a, b = gen_plain(rng, 1, 3), gen_plain(rng, 2, 3)
+            T = {'ax': ('equiv', a, b) if want else ('imp', a, b)}
+            parts = (expand(a), expand(b))
+            self.note('premise:match-family-assumed')
+        else:
+            self.note('premise:match-family-derived')
+        x, y = parts
+        # which component is the pattern side, and where the instantiated premise goes
+        first = name in ('imp_trans_match1', 'equiv_trans_match1', 'equiv_match_l', 'equiv_match_r')
+        pat_side = {'imp_trans_match1': y, 'equiv_trans_match1': y, 'equiv_match_r': y,
+                    'imp_trans_match2': x, 'equiv_trans_match2': x, 'equiv_match_l': x}[name]
+        theta = {}
+        for i in mvars(pat_side):
+            theta[i] = expand(self.schematic()) if rng.random() < 0.6 else expand(gen_pat(rng, 1, self.hist))
+        if rng.random() < 0.1:
+            theta = {}
+        inst_side = subst_mv(pat_side, theta)
+        other = gen_pat(rng, 1, self.hist)
+        mk = (lambda l, r_: ('equiv', l, r_)) if want else (lambda l, r_: ('imp', l, r_))
+        if name in ('equiv_match_l', 'equiv_match_r'):
+            args = [T, {'p': inst_side}]
+        elif first:
+            args = [T, {'ax': mk(inst_side, other)}]
+        else:
+            args = [{'ax': mk(other, inst_side)}, T]
+        return self.tree_case({'call': name, 'args': args})
 
 
 # ------------------------------------------------------------------------------------------------
@@ -522,13 +690,7 @@ def ml_of(py, lib):
     out = []
     for k, p in enumerate(m['params']):
         if k < len(py['args']):
-            a = py['args'][k]
-            if 'p' in a:
-                out.append('P' + hexp(expand(totuple(a['p']))))
-            elif 'ax' in a:
-                out.append(f'(A {hexp(expand(totuple(a["ax"])))})')
-            else:
-                out.append(ml_of(a, lib))
+            out.append(ml_arg(py['args'][k], lib))
         elif p['default'] is not None:
             out.append('P' + hexp(mv(p['default'])))
         else:
@@ -536,9 +698,39 @@ def ml_of(py, lib):
     return f'(C {m["idx"]} ' + ' '.join(out) + ')' if out else f'(C {m["idx"]})'
 
 
+def ml_arg(a, lib):
+    if 'p' in a:
+        return 'P' + hexp(expand(totuple(a['p'])))
+    if 'ax' in a:
+        return f'(A {hexp(expand(totuple(a["ax"])))})'
+    if 'd' in a:
+        return '(S ' + ' '.join(f'{int(k)}={hexp(expand(totuple(x)))}' for k, x in a['d']) + ')' if a['d'] else '(S)'
+    return ml_of(a, lib)
+
+
+def conc_of_arg(a, lib):
+    """documented conclusion of a thunk argument"""
+    if 'ax' in a:
+        return expand(totuple(a['ax']))
+    return oracle_of(a, lib)
+
+
 def oracle_of(py, lib):
     """documented conclusion of a python call tree (None if some premise is not of the documented shape)"""
     m = lib.by_name[py['call']]
+    if py['call'] in SPECIAL:
+        args = []
+        for k, p in enumerate(m['params']):
+            if k >= len(py['args']):
+                return None
+            a = py['args'][k]
+            if p['type'] == 'pat':
+                args.append(('pat', expand(totuple(a['p']))))
+            elif p['type'] == 'subst':
+                args.append(('subst', [(int(k_), expand(totuple(x))) for k_, x in a['d']]))
+            else:
+                args.append(('thunk', conc_of_arg(a, lib)))
+        return oracle_special(py['call'], args)
     pat_args, prem = {}, []
     for k, p in enumerate(m['params']):
         a = py['args'][k] if k < len(py['args']) else None
@@ -546,12 +738,15 @@ def oracle_of(py, lib):
             pat_args[p['name']] = expand(totuple(a['p'])) if a is not None else mv(p['default'])
         elif a is None:
             return None
-        elif 'ax' in a:
-            prem.append(expand(totuple(a['ax'])))
         else:
-            prem.append(oracle_of(a, lib))
+            prem.append(conc_of_arg(a, lib))
     r = oracle(lib, py['call'], pat_args, prem)
     return r[0] if r else None
+
+
+def subcases(py, lib):
+    return [dict(py=a, ml=ml_of(a, lib), expect=oracle_of(a, lib), sub=subcases(a, lib), origin='sub')
+            for a in py['args'] if 'call' in a]
 
 
 def load_corpus(lib):
@@ -605,7 +800,7 @@ def run(tier, seed):
         G = Gen(lib, rng, R.hist)
         budget = per_method if not proof_broken else per_method * 3 // 2
         for m in idx['methods']:
-            for k in range(budget):
+            for k in range(budget * (4 if m['name'] in SPECIAL else 1)):
                 py, ml, exp, sub = G.call(m['name'], 0, 1 + (k % 3))
                 cases.append(dict(py=py, ml=ml, expect=exp, sub=sub, origin=f'gen:{m["name"]}:{k}'))
         impl = run_impl(cases)
